@@ -148,4 +148,24 @@ example :
           rcases hw with rfl | rfl <;> exact ⟨rfl, rfl, rfl⟩
   · decide
 
+/-- Non-vacuity of `aggTree_bits` / `addPair_bits`: three consistent 2-bit rows (2, 3, 3) aggregate to the
+saturated 3-bit value 7 (the third row passes through the first level); a pair whose sums wrap. -/
+example :
+    let ρ : Path → Masks Bool := fun p => ⟨true, p.length % 2 == 1, false⟩
+    let rows : List (List SW) := [[shB false true false, shB true true true], [shB true false false, shB true true false],
+      [shB true false true, shB true false false]]
+    (∀ r ∈ rows, AllC r) ∧ (∀ r ∈ rows, r.length = 2) ∧
+    recBits (aggregateValues (shareAlg ρ) [] 3 rows) = 7 ∧
+    recRow (sAddPair (shareAlg ρ) [] 0
+      (⟨1, [shB true true false, shB true false true], [shB true false false, shB true true true]⟩,
+       ⟨1, [shB false true true, shB true true false], [shB true false true, shB true true true]⟩)) = (1, 2) := by
+  intro ρ rows
+  refine ⟨?_, by decide, by decide, by decide⟩
+  intro r hr
+  simp only [rows, List.mem_cons, List.not_mem_nil, or_false] at hr
+  rcases hr with rfl | rfl | rfl <;>
+  · intro w hw
+    simp only [List.mem_cons, List.not_mem_nil, or_false] at hw
+    rcases hw with rfl | rfl <;> exact ⟨rfl, rfl, rfl⟩
+
 end IpaVerif.C01
